@@ -93,3 +93,35 @@ Definition offending (g : gates) (c : topcfg) (e : verr) : Prop :=
 (* a duplicated processor reference: occurs at two different positions *)
 Definition duplicated (r : string) (l : list string) : Prop :=
   exists i j, i < j /\ nth_error l i = Some r /\ nth_error l j = Some r.
+
+(* ---- strict decoding ---------------------------------------------------------------------- *)
+(* a struct level accepts key k: some field — its own or one of a squashed member's — is named k *)
+Definition accepts (t : tdesc) (k : string) : Prop := exists t', In (k, t') (flat_of t).
+
+(* [unk t v p k]: the configuration value [v], decoded into type [t], has at key path [p] a
+   struct level that is written with a key [k] which no field of that level accepts (and the level
+   has no `,remain` field).  Depth is unbounded: through fields (also of squashed members),
+   pointers, slice elements and map entries. *)
+Inductive unk : tdesc -> cv -> path -> string -> Prop :=
+| U_here t rem fs kvs k x :
+    strip t = TStruct rem fs -> In (k, x) kvs ->
+    ~ accepts (TStruct rem fs) k -> remain_of (TStruct rem fs) = false ->
+    unk t (CMap kvs) [] k
+| U_field t rem fs kvs k x t' p k' :
+    strip t = TStruct rem fs -> In (k, x) kvs ->
+    lookup k (flat_of (TStruct rem fs)) = Some t' -> unk t' x p k' ->
+    unk t (CMap kvs) (k :: p) k'
+| U_elem t t' l i x p k :
+    strip t = TSlice t' -> nth_error l i = Some x -> unk t' x p k ->
+    unk t (CList l) (itoa i :: p) k
+| U_entry t t' kvs key x p k :
+    strip t = TMap t' -> In (key, x) kvs -> unk t' x p k ->
+    unk t (CMap kvs) (key :: p) k.
+
+(* ---- faithfulness ------------------------------------------------------------------------- *)
+(* the user wrote the scalar [s] at key path [p] *)
+Definition written (m : option cv) (p : path) (s : string) : Prop := cv_get p m = Some (CScalar s).
+(* nothing (or an explicit null) was written at [p] *)
+Definition unwritten (m : option cv) (p : path) : Prop := cv_get p m = None \/ cv_get p m = Some CNull.
+(* [p] addresses a plain leaf of the typed configuration *)
+Definition leaf_at (d : tv) (p : path) (s : string) : Prop := tv_get p d = Some (VSc s).
